@@ -425,6 +425,14 @@ func runC03(r *Run, verifDir string) {
 	// ---------------- T6 sign word decision
 	r.Rule("C03.T6", "bigIntToBytes tests the top bit of the first byte on every non-zero path (both signs)", 1)
 	c03SignWord(r)
+
+	// ---------------- T7 padding computed from the returned bytes
+	r.Rule("C03.T7", "bigIntToBytes: the pad length is padForLen(len(b), padding) of the very slice it returns, or a whole sign word", 1)
+	c03PadOfReturned(r)
+
+	// ---------------- T8 the binary writer only grows its buffer by appending
+	r.Rule("C03.T8", "every byte of the binary output is written: the writer's buffer grows only through append/AppendUintNN, never by reslicing beyond its length", 5)
+	c03AppendOnly(r)
 }
 
 func c03Order(r *Run, method string, want []string) {
@@ -667,5 +675,144 @@ func c03SignWord(r *Run) {
 		r.Bad("C03.T6", key, fn.Pos(), "%d of %d non-zero paths through bigIntToBytes never examine the top bit of the first byte: for that sign a number whose leading bit disagrees with its sign is written without a sign word and reads back with the opposite sign", bad, nNZ)
 	default:
 		r.OK("C03.T6", key, fn.Pos(), "all %d non-zero paths (negative and positive) test the top bit of b[0] before deciding on a sign word", nNZ)
+	}
+}
+
+func c03PadOfReturned(r *Run) {
+	p := r.P
+	fn := p.Func("ttlv", "", "bigIntToBytes")
+	key := "ttlv.bigIntToBytes/pad-of-returned"
+	if fn == nil {
+		r.Unk("C03.T7", key, token.NoPos, "anchor missing")
+		return
+	}
+	var padParam ssa.Value = fn.Params[1]
+	isPadding := func(v ssa.Value) bool {
+		if v == padParam {
+			return true
+		}
+		if ph, ok := v.(*ssa.Phi); ok { // `if padding < 1 { padding = 1 }`
+			for _, e := range ph.Edges {
+				if e == padParam {
+					return true
+				}
+			}
+		}
+		return false
+	}
+	nRet, bad := 0, ""
+	allInstrs(fn, func(in ssa.Instruction) {
+		ret, ok := in.(*ssa.Return)
+		if !ok || len(ret.Results) != 3 {
+			return
+		}
+		b, padLen := ret.Results[0], ret.Results[2]
+		if sl, ok := b.(*ssa.Slice); ok {
+			if pa, ok := sl.X.Type().Underlying().(*types.Pointer); ok {
+				if arr, ok := pa.Elem().Underlying().(*types.Array); ok && arr.Len() == 0 {
+					return // the zero case: empty bytes, a whole word of padding
+				}
+			}
+		}
+		nRet++
+		var edges []ssa.Value
+		if ph, ok := padLen.(*ssa.Phi); ok {
+			edges = ph.Edges
+		} else {
+			edges = []ssa.Value{padLen}
+		}
+		for _, e := range edges {
+			if isPadding(e) {
+				continue
+			}
+			pc, ok := e.(*ssa.Call)
+			if !ok || !callID(&pc.Call).is(ttlvPath, "", "padForLen") {
+				bad = "the pad length is neither padForLen(len(b), padding) nor a whole word"
+				continue
+			}
+			y, ok := lenOperand(pc.Call.Args[0])
+			if !ok || y != b {
+				bad = "the pad length is computed from the length of a different byte slice than the one returned: value plus padding is no longer a multiple of the word size when the two lengths differ"
+			}
+			if !isPadding(pc.Call.Args[1]) {
+				bad = "padForLen is not called with the requested word size"
+			}
+		}
+	})
+	switch {
+	case nRet == 0:
+		r.Unk("C03.T7", key, fn.Pos(), "non-zero return not found")
+	case bad != "":
+		r.Bad("C03.T7", key, fn.Pos(), "%s", bad)
+	default:
+		r.OK("C03.T7", key, fn.Pos(), "padLen = padForLen(len(b), padding) for the returned b, or padding itself")
+	}
+}
+
+// c03AppendOnly: stores to ttlvWriter.buf and reslices of it.
+func c03AppendOnly(r *Run) {
+	p := r.P
+	n := 0
+	for _, fn := range p.OwnFuncs() {
+		id := idOf(fn)
+		if id.pkg != ttlvPath {
+			continue
+		}
+		inWriter := id.recv == "ttlvWriter" || (fn.Parent() != nil && idOf(fn.Parent()).recv == "ttlvWriter")
+		ord := 0
+		allInstrs(fn, func(in ssa.Instruction) {
+			switch x := in.(type) {
+			case *ssa.Store:
+				_, fld, ok := fieldAddrOf(x.Addr)
+				if !ok || fld.Name() != "buf" || typeName(x.Addr.(*ssa.FieldAddr).X.Type()) != "ttlvWriter" {
+					return
+				}
+				n++
+				ord++
+				key := fmt.Sprintf("%s/store-buf#%d", fnKey(fn), ord)
+				v := x.Val
+				okV, why := false, ""
+				switch c := v.(type) {
+				case *ssa.Call:
+					cid := callID(&c.Call)
+					if b, ok := c.Call.Value.(*ssa.Builtin); ok && b.Name() == "append" {
+						okV, why = true, "append"
+					} else if cid.pkg == "encoding/binary" && strings.HasPrefix(cid.name, "AppendUint") {
+						okV, why = true, cid.name
+					} else if c.Call.StaticCallee() == nil && !c.Call.IsInvoke() {
+						okV, why = true, "value closure (func([]byte) []byte, itself checked by T2/T3)"
+					}
+				case *ssa.Slice:
+					if k, ok := constIntVal(c.High); ok && k == 0 && c.Low == nil {
+						okV, why = true, "buf[:0]"
+					}
+				}
+				if okV {
+					r.OK("C03.T8", key, x.Pos(), "buffer updated by %s", why)
+				} else {
+					r.Bad("C03.T8", key, x.Pos(), "the writer's buffer is replaced by something other than an append: bytes can become part of the output without having been written (stale content of a reused buffer after Clear)")
+				}
+			case *ssa.Slice:
+				if !inWriter || x.High == nil {
+					return
+				}
+				if _, isSlice := x.X.Type().Underlying().(*types.Slice); !isSlice {
+					return
+				}
+				if k, ok := constIntVal(x.High); ok && k == 0 {
+					return
+				}
+				// allowed: buf[:off] where off is a len() taken earlier (back-patch)
+				if y, ok := lenOperand(x.High); ok {
+					_ = y
+					return
+				}
+				ord++
+				r.Bad("C03.T8", fmt.Sprintf("%s/reslice#%d", fnKey(fn), ord), x.Pos(), "a byte slice is resliced to a computed length in the binary writer: extending a slice exposes bytes that were never written")
+			}
+		})
+	}
+	if n < 5 {
+		r.Unk("C03.T8", "ttlvWriter.buf/stores", token.NoPos, "%d stores to ttlvWriter.buf found, expected at least 5", n)
 	}
 }
